@@ -2,7 +2,7 @@ from dataclasses import dataclass
 from typing import Callable, List, Optional, Sequence, Tuple
 
 from .. import n
-from ..diagnostics import Diagnostic, MissingRef
+from ..diagnostics import Diagnostic, InvalidField, MissingRef
 from ..flutter import checked
 from ..page import Page
 from ..types import EmbeddedRstParser
@@ -19,9 +19,8 @@ class Extract(Inheritable, HeadingMixin):
     post: Optional[str]
 
     def render(self, page: Page, rst_parser: EmbeddedRstParser) -> List[n.Node]:
-        if self.only is not None:
-            raise NotImplementedError('extracts: "only" not implemented')
-
+        # "only" is not implemented: the extract is rendered unconditionally, and
+        # GizaExtractsCategory._generate_pages reports it on the YAML file.
         children: List[n.Node] = []
 
         if self.pre:
@@ -73,6 +72,13 @@ class GizaExtractsCategory(GizaCategory[Extract]):
 
             page, rst_parser = page_factory(f"{extract.ref}.rst")
             page.category = "extracts"
+            if extract.only is not None:
+                giza_file.reify_diagnostics.append(
+                    InvalidField(
+                        f'extracts: "only" is not supported; ignoring it in "{extract.ref}"',
+                        extract.line,
+                    )
+                )
             rendered = extract.render(page, rst_parser)
             extract_directive = n.Directive((extract.line,), [], "", "extract", [], {})
             extract_directive.children = rendered
